@@ -47,6 +47,10 @@ var Groups = map[string][]string{
 		`{"properties":{"é":{"type":"string"}},"additionalProperties":{"type":"integer"}}`,
 		`{"properties":{"a":{"type":"integer"}},"patternProperties":{"^a":{"maximum":3}},"additionalProperties":false}`,
 		`{"properties":{"a":{},"ab":{"type":"integer"}},"patternProperties":{"b$":{"minimum":2}},"additionalProperties":false}`,
+		// several patterns of which a member matches only some, next to a schema-valued additionalProperties
+		`{"patternProperties":{"^a":{"type":"integer"},"b$":{"type":"integer"},"^x":{}},"additionalProperties":{"type":"string"}}`,
+		`{"patternProperties":{"^a":{},"c$":{},"^é":{},"^[0-9]":{}},"additionalProperties":{"type":"null"}}`,
+		`{"properties":{"c":{}},"patternProperties":{"a":{"minimum":0},"b":{"minimum":0},"x":{"minimum":0}},"additionalProperties":{"maximum":-1}}`,
 	},
 	"format": {
 		`{"type":"string","format":"date"}`, `{"type":["string","null"],"format":"email"}`, `{"type":"string","format":"unknownfmt"}`,
@@ -73,6 +77,8 @@ var Groups = map[string][]string{
 		`{"definitions":{"s":{"type":"string"},"n":{"anyOf":[{"$ref":"#/definitions/s"},{"type":"null"}]}},"properties":{"a":{"$ref":"#/definitions/n"}}}`,
 		`{"definitions":{"i":{"type":"integer"}},"items":{"$ref":"#/definitions/i"}}`,
 		`{"dependencies":{"é":{"minProperties":2}}}`,
+		// an empty dependency list next to real ones (members visited in map order)
+		`{"dependencies":{"a":[],"b":["c"],"xa":[]}}`, `{"dependencies":{"a":[],"ab":[],"b":{"required":["c"]},"c":["zz"]}}`,
 	},
 }
 
